@@ -624,8 +624,12 @@ class GMMMachine(BaseEstimator):
                 n_gaussians=hdf5["n_gaussians"][()],
                 trainer=trainer,
                 ubm=ubm,
-                convergence_threshold=hdf5["convergence_threshold"][()],
-                max_fitting_steps=hdf5["max_fitting_steps"][()],
+                convergence_threshold=hdf5["convergence_threshold"][()]
+                if "convergence_threshold" in hdf5
+                else None,
+                max_fitting_steps=hdf5["max_fitting_steps"][()]
+                if "max_fitting_steps" in hdf5
+                else None,
                 weights=hdf5["weights"][...],
                 k_means_trainer=None,
                 update_means=hdf5["update_means"][()],
@@ -673,8 +677,11 @@ class GMMMachine(BaseEstimator):
         hdf5.attrs["writer_class"] = str(self.__class__)
         hdf5["n_gaussians"] = self.n_gaussians
         hdf5["trainer"] = self.trainer
-        hdf5["convergence_threshold"] = self.convergence_threshold
-        hdf5["max_fitting_steps"] = self.max_fitting_steps
+        # h5py cannot store None: an absent dataset means "not set"
+        if self.convergence_threshold is not None:
+            hdf5["convergence_threshold"] = self.convergence_threshold
+        if self.max_fitting_steps is not None:
+            hdf5["max_fitting_steps"] = self.max_fitting_steps
         hdf5["weights"] = self.weights
         hdf5["update_means"] = self.update_means
         hdf5["update_variances"] = self.update_variances
